@@ -485,12 +485,19 @@ def run(ctx):
         "is tested, not proved: all three streams contain boundary-anchored ranges of every kind (start / end / first / last "
         "element exactly on MinSmallInt, MaxSmallInt, their neighbours, +-2^63, +-2^64), each finite range first through a "
         "bounded probe (take(n+3) / capped Next loop) so that an iterator that does not stop is reported as a wrong element "
-        "list. Not modelled: maps, channels, strings as "
-        "iterables; non-Int element types other than Int8 ranges; the iterator state left behind by take (it consumes k+1).")
+        "list. Nilable elements: the model is generic in the element type; a second extracted instance (Model/C23_Nil.v, "
+        "element type option Z = Elk Int?) is proved equal to the list model (C23_ops_nilable_run) and C23_nil_element_is_not_absence "
+        "proves that first/last/find RETURN nil when the selected element is nil and throw NotFoundError only when nothing is "
+        "selected; stream c23.nilable ties it to the implementation on lists/tuples/native iterators/generators/a throwing user "
+        "iterator of Int? with nil at the first/last/middle/every/no position, zeros and duplicates (through the wrapper, "
+        "directly, and through for loops). Not modelled: maps, channels, strings as "
+        "iterables; element types other than Int, Int? and Int8 ranges; reduce over Int? elements; the iterator state left "
+        "behind by take (it consumes k+1).")
     ctx.trusted_base += [
         "Elk Int Increment/comparison modelled as Z successor/order (C06 covers Int arithmetic); Equal on Ints as Z.eqb",
         "the generated Elk wrapper class (include Iterable::Base + attr iter) reaches vm/iterable.go through vm.Iterate's default branch",
-        "Python generator/canonicaliser of c23.ops and c23.forin (strips the ArrayList capacity suffix ':N' and the iN literal suffix)",
+        "Elk `==` / `??` on Int? modelled as equality / default on option Z (closures of c23.nilable)",
+        "Python generator/canonicaliser of c23.ops, c23.nilable and c23.forin (strips the ArrayList capacity suffix ':N' and the iN literal suffix)",
         "the Python description of a range's elements (range(a, b+1) etc.) used by the bounded probe and c23.forin; cross-checked against the extracted model on every case",
     ]
     ctx.run_proof_gate()
@@ -499,6 +506,7 @@ def run(ctx):
     ops_stream(ctx, model, elk)
     forin_stream(ctx, model, elk)
     direct_stream(ctx, model, elk)
+    nilable_stream(ctx, model, elk)
     api_stream(ctx, model)
 
 
@@ -956,6 +964,314 @@ def forin_stream(ctx, model, elk):
                "r.iter.take(n+3), r.iter.take_while(first <= x <= last).take(n+3), r.iter.index_of(last); loops capped at n+3 iterations "
                "(8 for endless ranges); non-trivial = non-empty expected elements; distinct by program text",
                samples, dist, mismatches=mism, ranges=len(ranges), programs=len(progs))
+
+
+# ------------------------------------------------------------------ c23.nilable
+
+NHEADER = '''def thrn(x: Int?, t: Int?): Int? ! String
+  throw "boom" if x == t
+  x
+end
+class NFI
+  include Iterable::Base[Int?, String]
+  var @items: List[Int?]
+  var @i: Int
+  init(@items: List[Int?])
+    @i = 0
+  end
+  def iter: self
+    self
+  end
+  def next: Int? ! String
+    throw "boom" if @i >= @items.length
+    v := @items[@i]
+    @i += 1
+    v
+  end
+  def inspect: String
+    "NFI{}"
+  end
+end
+def *ngen(l: List[Int?], r: Int?): Int?
+  i := 0
+  while i < l.length
+    yield l[i]
+    i += 1
+  end
+  r
+end
+'''
+
+NFORCASE = '''do
+  var l_%(id)s: List[Int?] = []
+  for x in %(expr)s
+    break if l_%(id)s.length >= %(cap)d
+    l_%(id)s << x
+  end
+  out("%(id)s", l_%(id)s)
+catch String() as s
+  println("%(id)s E:s:" + s)
+catch e
+  println("%(id)s E:other")
+end
+'''
+
+# element lists with nil at the first / last / middle / every / no position, 0 and duplicates (None = nil)
+NIL_LISTS = [[None, 1, 2], [1, 2, None], [1, None, 2], [None], [None, None], [], [1, 2, 3], [0, None, 0], [None, 0],
+             [0, 0, None], [2, 2, None, 2], [None, 1, None], [None, None, None], [0], [1, None]]
+NWRAPPED = ("list", "tuple", "generator", "failing")
+NDIRECT = ("direct-list-iter", "direct-tuple-iter", "direct-list", "direct-tuple")
+NFORIN = ("for-list", "for-tuple", "for-list-iter", "for-wrapped", "for-generator", "for-failing")
+
+
+def nel(e):
+    return "nil" if e is None else str(e)
+
+
+def ncsv(l):
+    return ",".join("n" if e is None else str(e) for e in l) if l else "-"
+
+
+def nshow(l):
+    return "[" + ", ".join(nel(e) for e in l) + "]"
+
+
+def nparse(o):
+    """'[nil, 1]' -> [None, 1]"""
+    o = o.lstrip("%")
+    if not (o.startswith("[") and o.endswith("]")):
+        return None
+    try:
+        return [None if x.strip() == "nil" else int(x) for x in o[1:-1].split(",") if x.strip()]
+    except ValueError:
+        return None
+
+
+def npred_elk(f):
+    p = f.split(":")
+    x = "x"
+    while p[0] == "thr":
+        x = "thrn(%s, %s)" % (x, "nil" if p[1] == "n" else p[1])
+        p = p[2:]
+    if p[0] in ("true", "false"):
+        return "|x| -> %s" % p[0]
+    if p[0] == "isnil":
+        return "|x| -> %s == nil" % x
+    if p[0] == "notnil":
+        return "|x| -> %s != nil" % x
+    return "|x| -> %s %s (%s)" % (x, "==" if p[0] == "eq" else "!=", p[1])
+
+
+def nop_elk(op):
+    p = op.split()
+    o = p[0]
+    if o in NULLARY:
+        return o
+    if o in ("contains", "index_of"):
+        return "%s(%s)" % (o, "nil" if p[1] == "n" else p[1])
+    if o in ("take", "drop"):
+        return "%s(%s)" % (o, p[1])
+    if o == "mapor":
+        return "map(|x| -> x ?? (%s))" % p[1]
+    if o == "fold":
+        return "fold(%s, |a, x| -> a * (%s) + (x ?? (%s)))" % (p[1], p[2], p[3])
+    if o in PRED_OPS:
+        return "%s(%s)" % (o, npred_elk(p[1]))
+    raise ValueError(op)
+
+
+def ngen_ops(l, full, quick=True):
+    n = len(l)
+    ops = []
+    if full:
+        for e in ("n", "0", "1", "7"):
+            ops += ["contains " + e, "index_of " + e]
+        for k in range(-1, n + 2):
+            ops += ["take %d" % k, "drop %d" % k]
+        ops += list(NULLARY) + ["mapor 7", "fold 0 10 7"]
+        preds = ("isnil", "notnil", "eq:0", "thr:n:eq:1", "false") if quick else \
+            ("isnil", "notnil", "eq:0", "ne:1", "false", "true", "thr:n:eq:1", "thr:1:isnil")
+        for pr in preds:
+            ops += ["%s %s" % (o, pr) for o in PRED_OPS]
+    else:
+        ops += ["contains n", "index_of n", "index_of 0", "take 1", "drop 1", "first", "try_first", "last", "try_last",
+                "is_empty", "length", "to_list", "mapor 7"]
+        for pr in ("isnil", "notnil"):
+            ops += ["%s %s" % (o, pr) for o in ("find", "try_find", "any", "find_index", "filter", "take_while")]
+    return ops
+
+
+def nreceiver(form, var):
+    """Elk receiver expression for a form, given the names of the typed list / tuple variables"""
+    lv, tv, gl, gr = var
+    return {"list": "W(%s.iter)" % lv, "tuple": "W(%s.iter)" % tv, "generator": "W(ngen(%s, %s))" % (gl, gr),
+            "failing": "NFI(%s)" % lv, "direct-list-iter": "%s.iter" % lv, "direct-tuple-iter": "%s.iter" % tv,
+            "direct-list": lv, "direct-tuple": tv, "for-list": lv, "for-tuple": tv, "for-list-iter": "%s.iter" % lv,
+            "for-wrapped": "W(%s.iter)" % tv, "for-generator": "ngen(%s, %s)" % (gl, gr), "for-failing": "NFI(%s)" % lv}[form]
+
+
+def nilable_stream(ctx, model, elk):
+    """Iterables whose ELEMENT TYPE is Int? (nil is an element): lists, tuples, their iterators, generators and a
+    user-defined throwing iterator, through the W wrapper (vm/iterable.go), called directly, and through for loops.
+    Model: the extracted instance C23_Nil (element type option Z), where a selected nil element (`nil`) and
+    no selected element (E:nf) are different outcomes."""
+    stream = "c23.nilable"
+    rng = ctx.rng(stream)
+    lists = [list(l) for l in NIL_LISTS]
+    for _ in range(ctx.n(2, 60)):
+        lists.append([None if rng.range(0, 2) == 0 else rng.choice([-1, 0, 1, 2]) for _ in range(rng.range(0, 5))])
+    corpus = read_corpus(os.path.join(vlib.ROOT, "corpus", "C23.nilable.txt"))
+    groups = []   # one per element list: (decls, cases)
+    cases = []
+
+    def group(j, l, wanted):
+        """wanted: [(form, ops or None for a for-loop)]"""
+        lv, tv, gl = "nl_%d" % j, "nt_%d" % j, "ng_%d" % j
+        decl = "var %s: List[Int?] = %s\nvar %s: Tuple[Int?] = %%%s\n" % (lv, nshow(l), tv, nshow(l))
+        decl += "var %s: List[Int?] = %s\n" % (gl, nshow(l[:-1]))
+        g = []
+        for form, ops in wanted:
+            if "generator" in form and not l:
+                form = form.replace("generator", "list")
+            recv = nreceiver(form, (lv, tv, gl, nel(l[-1]) if l else "nil"))
+            failing = form.endswith("failing")
+            req = ("NF " if failing else "NL ") + ncsv(l)
+            if ops is None:
+                c = dict(id="k%d" % len(cases), l=l, form=form, op="to_list", req=req + " to_list", kind="forin",
+                         src=None, expr="for x in " + recv, failing=failing)
+                c["src"] = NFORCASE % dict(id=c["id"], expr=recv, cap=len(l) + 3)
+                cases.append(c)
+                g.append(c)
+                continue
+            for op in ops:
+                c = dict(id="k%d" % len(cases), l=l, form=form, op=op, req=req + " " + op, kind="op",
+                         expr="%s.%s" % (recv, nop_elk(op)), failing=failing, recv=recv)
+                c["src"] = CASE % dict(id=c["id"], expr=c["expr"])
+                cases.append(c)
+                g.append(c)
+        groups.append((decl, g))
+
+    ncorpus = 0
+    for line in corpus:      # "<form> <csv|-> | <op>"
+        try:
+            left, op = [x.strip() for x in line.split("|")]
+            form, cs = left.split()
+            l = [] if cs == "-" else [None if x == "n" else int(x) for x in cs.split(",")]
+            nop_elk(op)
+            assert form in NWRAPPED + NDIRECT
+        except Exception:
+            ctx.broke("correspondence %s: bad corpus line" % stream, line)
+            continue
+        group(len(groups), l, [(form, [op, "to_list"] if op != "to_list" else [op])])
+        ncorpus += 1
+    for j, l in enumerate(lists):
+        wanted = [(NWRAPPED[j % 4], ngen_ops(l, True, ctx.quick()))]
+        wanted += [(NDIRECT[(j + d) % 4], ngen_ops(l, False)) for d in ((0,) if ctx.quick() else (0, 2))]
+        wanted += [(NFORIN[(j + d) % 6], None) for d in (0, 3)]
+        group(len(groups), l, wanted)
+
+    reqs = {c["id"]: c["req"] for c in cases}
+    rc, exp, mout = model_answers(model, reqs, fuel=600)
+    if rc != 0:
+        ctx.broke("correspondence %s: model driver exited %d" % (stream, rc), mout[-2000:])
+    # programs: whole groups, ~120 cases per program
+    progs, cur, cnt = [], "", 0
+    for decl, g in groups:
+        cur += decl + "".join(c["src"] for c in g)
+        cnt += len(g)
+        if cnt >= 120:
+            progs.append(("n%d" % len(progs), cur))
+            cur, cnt = "", 0
+    if cur:
+        progs.append(("n%d" % len(progs), cur))
+    res = vlib.run_programs(elk, [(pid, HEADER + NHEADER + src) for pid, src in progs], os.path.join(ctx.workdir, "nilable"),
+                            timeout=120)
+    got = {}
+    for pid, (rc_, out, cls) in res.items():
+        for line in out.splitlines():
+            m = TAG_RE.match(line)
+            if m:
+                got[m.group(1)] = m.group(2)
+    missing = [c for c in cases if c["id"] not in got]
+    if missing:
+        # rerun alone (with the declarations of its group)
+        decl_of = {}
+        for decl, g in groups:
+            for c in g:
+                decl_of[c["id"]] = decl
+        rer = missing[:60]
+        res2 = vlib.run_programs(elk, [("s" + c["id"], HEADER + NHEADER + decl_of[c["id"]] + c["src"]) for c in rer],
+                                 os.path.join(ctx.workdir, "nilable1"), timeout=60)
+        for c in rer:
+            rc_, out, cls = res2["s" + c["id"]]
+            for line in out.splitlines():
+                m = TAG_RE.match(line)
+                if m and m.group(1) == c["id"]:
+                    got[c["id"]] = m.group(2)
+            if c["id"] not in got:
+                first = next((x for x in out.splitlines() if x.strip()), "")
+                got[c["id"]] = ("panic " if cls in ("go_panic", "go_fatal") else cls + " ") + first[:160]
+        if len(missing) > len(rer):
+            ctx.broke("correspondence %s: %d cases produced no output" % (stream, len(missing) - len(rer)),
+                      "\n".join(c["expr"] for c in missing[60:70]))
+    # oracle 2: the list model on the implementation's own to_list of the same receiver
+    own = {}
+    for c in cases:
+        if c["kind"] == "op" and c["op"] == "to_list" and not c["failing"]:
+            o = nparse(canon(got.get(c["id"], "")))
+            if o is not None:
+                own[(id(c["l"]), c["form"])] = o
+    reqs2 = {c["id"]: "NS %s %s" % (ncsv(own[(id(c["l"]), c["form"])]), c["op"]) for c in cases
+             if c["kind"] == "op" and (id(c["l"]), c["form"]) in own}
+    rc, exp2, mout = model_answers(model, reqs2)
+    if rc != 0:
+        ctx.broke("correspondence %s: model driver (list model) exited %d" % (stream, rc), mout[-2000:])
+    dist, distinct, mism, samples, nilsel = {}, set(), 0, [], 0
+    for c in cases:
+        obs = canon(got.get(c["id"], "missing"))
+        e1 = exp.get(c["id"])
+        opname = c["op"].split()[0]
+        direct = c["form"].startswith("direct") or c["kind"] == "forin"
+        o1, x1 = (obs.lstrip("%"), (e1 or "").lstrip("%")) if direct else (obs, e1)   # collection type of a direct result is not property-level
+        case = "%s  with elements %s" % (c["expr"], nshow(c["l"]))
+        dist[c["form"] + "/" + opname] = dist.get(c["form"] + "/" + opname, 0) + 1
+        if None in c["l"]:
+            distinct.add((c["form"], tuple(c["l"]), c["op"]))
+        if e1 == "nil" and opname in ("first", "last", "find") and c["l"]:
+            nilsel += 1
+        if len(samples) < 4 and len(distinct) % 101 == 1:
+            samples.append({"input": case, "observed": obs[:120]})
+        if c["kind"] == "forin":
+            if o1 != x1:
+                mism += 1
+                ctx.fail("nilable:forin:%s:%s-vs-%s" % (c["form"], oclass(obs), oclass(e1)),
+                         "%s yields %s, the elements are %s" % (case, obs[:160], e1), stream=stream, case=case, impl=obs,
+                         model=e1, oracle="iteration yields exactly the elements in order (nil elements included)")
+            continue
+        if e1 is not None and o1 != x1:
+            mism += 1
+            ctx.fail("nilable:model:%s:%s:%s-vs-%s" % (opname, c["form"], oclass(obs), oclass(e1)),
+                     "%s: implementation %s, model %s" % (case, obs[:160], e1), stream=stream, case=case, impl=obs, model=e1,
+                     oracle="implementation differs from the proved model instance with nilable elements (a nil ELEMENT is a "
+                            "value, only absence is NotFoundError)")
+        e2 = exp2.get(c["id"])
+        if e2 is not None and o1 != (e2.lstrip("%") if direct else e2):
+            mism += 1
+            ctx.fail("nilable:list-model:%s:%s:%s-vs-%s" % (opname, c["form"], oclass(obs), oclass(e2)),
+                     "%s = %s but the same operation on its own to_list %s gives %s" % (
+                         case, obs[:160], nshow(own[(id(c["l"]), c["form"])]), e2), stream=stream, case=case, impl=obs,
+                     model=e2, oracle="operation result = list model applied to the implementation's own to_list")
+    ctx.stream(stream, len(cases), len(distinct),
+               "iterables with element type Int? (nil is an element): %d systematic element lists with nil at the first / last / "
+               "middle / every / no position, zeros and duplicates, plus seeded random ones (length 0-5, each element nil with "
+               "probability 1/3); each as List / Tuple through the W wrapper, as generator and as user-defined throwing iterator "
+               "(round robin) x 24 operations (contains/index_of nil, 0, 1, 7; take/drop -1..n+1; map |x| -> x ?? 7; fold; 8 "
+               "predicates (5 in the quick tier) incl. x == nil, x != nil and closures throwing on nil), one (thorough: two) direct "
+               "receiver (list / tuple value or native iterator) x 25 operations, two for-loop forms; expected = extracted model instance C23_Nil (nil element "
+               "prints nil, absence E:nf) and the list model on the implementation's own to_list; non-trivial = the list contains "
+               "nil; distinct by (form, elements, operation)" % len(NIL_LISTS),
+               samples, dist, mismatches=mism, corpus_cases=ncorpus, programs=len(progs), element_lists=len(lists),
+               cases_where_first_last_find_select_a_nil_element=nilsel)
 
 
 # ------------------------------------------------------------------ c23.direct
